@@ -278,7 +278,7 @@ pzgstrf_MemInit(int_t n, int_t annz, superlumt_options_t *superlumt_options,
     iword     = sizeof(int_t);
     dword     = sizeof(doublecomplex);
 
-    if ( !zexpanders )
+    if ( !zexpanders && lwork != -1 )
       zexpanders = (ExpHeader *) SUPERLU_MALLOC(NO_MEMTYPE * sizeof(ExpHeader));
 
     if ( refact == NO ) {
@@ -978,7 +978,7 @@ zPresetMap(
 	if ( j == n || map_in_sup[j] >= 0 )
 	    SLU_MT_VERIF_EVENT(18, -1, j, map_in_sup[j], Glu->dynamic_snode_bound);
 #endif
-    free (marker);
+    SUPERLU_FREE (marker);
     return nextpos;
 }
 
